@@ -7,6 +7,7 @@ import subprocess
 from .. import f1, f2, gen, wasm, cexec, e2e
 from ..choice import Chooser
 from ..wasm import Func
+from . import c16  # noqa: F401  (registers the c16_seq maker used by the ThreadSanitizer job)
 
 ID = 'C09'
 LEVEL = 'exploration'
@@ -225,8 +226,13 @@ def sig_of(problem):
 
 
 def gen_case(ch, params):
-    mk = ch.pick(('c05_history', 'c04_calls', 'c06_inst', 'c03_ctrl', 'c02_expr', 'c05_history'))
-    m, script, meta = f1.MAKERS[mk](ch, {'nfuncs': 14, 'nargs': 3, 'nsteps': 40})
+    if params.get('big'):
+        # many functions (so that several files are written at the same time), atomics with static offsets included
+        mk = ch.pick(('c16_seq', 'c05_history', 'c04_calls', 'c03_ctrl', 'c16_seq'))
+        m, script, meta = f1.MAKERS[mk](ch, {'nfuncs': 40, 'nargs': 1, 'nsteps': 10})
+    else:
+        mk = ch.pick(('c05_history', 'c04_calls', 'c06_inst', 'c03_ctrl', 'c02_expr', 'c05_history'))
+        m, script, meta = f1.MAKERS[mk](ch, {'nfuncs': 14, 'nargs': 3, 'nsteps': 40})
     wasm.validate(m)
     ni = m.n_imported_funcs()
     if m.func_names is None:
@@ -383,13 +389,82 @@ def sched_task(wid, seed, params):
     return res
 
 
+def tsan_task(wid, seed, params):
+    """the unmodified translator built with ThreadSanitizer, splitting the functions over several files with several worker threads:
+    no data race report, exit 0, and the same files as the plain build.  (vsched switches threads only at pthread calls; a race on
+    plain memory between two such calls - a static scratch buffer shared by the workers, say - needs this observer.)"""
+    res = {'evaluations': 0, 'nontrivial': set(), 'classes': collections.Counter(), 'samples': [], 'violations': [],
+           'infra': [], 'extra': collections.Counter()}
+    for ci in range(params['ncases']):
+        ch = Chooser(seed * 1000003 + ci)
+        try:
+            mk, m, script, meta = gen_case(ch, dict(params, big=True))
+        except wasm.Invalid:
+            continue
+        wb = wasm.encode(m)
+        opts = ['-f', str(ch.pick((1, 1, 2, 3))), '-t', str(ch.pick((2, 4, 8, 16)))]
+        for o in ('-g', '-p', '-m'):
+            if ch.below(4) == 1 and not (o == '-m' and any(FN_EXPORT.match(n) for n, kd, i in m.exports if kd == 'func')):
+                opts.append(o)
+        d0, tr0 = translate_to(wb, opts, 'plain')
+        try:
+            if tr0.rc != 0:
+                continue
+            base = read_outputs(d0)
+        finally:
+            cexec.rm(d0)
+        d, tr = translate_to(wb, opts, 'tsan')
+        try:
+            res['evaluations'] += 1
+            files = read_outputs(d) if tr.rc == 0 else None
+        finally:
+            cexec.rm(d)
+        nimpl = len([n for n in base if IMPL.match(n)])
+        res['classes']['tsan_translation'] += 1
+        if nimpl >= 3:
+            res['nontrivial'].add(f1.hx((wb, tuple(opts))))
+            res['classes']['tsan_files>=3'] += 1
+        err = tr.err.decode(errors='replace') if isinstance(tr.err, bytes) else str(tr.err)
+        bad = None
+        if 'ThreadSanitizer' in err or tr.rc == 96:
+            locs = [l.strip() for l in err.splitlines() if l.strip().startswith('#0') or l.strip().startswith('#1')][:3]
+            bad = ('tsan-race:' + f1.normalize_diag(' '.join(locs))[:70], 'ThreadSanitizer report in the translator: ' + err[:900])
+        elif tr.rc != 0:
+            bad = ('tsan-exit', 'ThreadSanitizer build of the translator exits %r: %s' % (tr.rc, err[-300:]))
+        elif files != base:
+            diff = sorted(set(files) ^ set(base)) or [n for n in files if base.get(n) != files[n]]
+            bad = ('tsan-output', 'ThreadSanitizer build writes other files than the plain build: %s' % diff[:4])
+        if bad and len(res['violations']) < 2:
+            res['violations'].append({'signature': 'c09:' + bad[0], 'summary': bad[1] + ' | options=%s' % ' '.join(opts),
+                                      'replay': {'kind': 'c09-tsan', 'module_hex': wb.hex(), 'options': opts}})
+    res['extra'] = dict(res['extra'])
+    return res
+
+
 def dispatch(wid, seed, params):
     if params.get('sched'):
         return sched_task(wid, seed, params)
+    if params.get('tsan'):
+        return tsan_task(wid, seed, params)
     return task(wid, seed, params)
 
 
 def replay(rp):
+    if rp.get('kind') == 'c09-tsan':
+        wb = bytes.fromhex(rp['module_hex'])
+        d0, tr0 = translate_to(wb, rp['options'], 'plain')
+        try:
+            base = read_outputs(d0) if tr0.rc == 0 else None
+        finally:
+            cexec.rm(d0)
+        for _ in range(3):          # a race report needs both accesses to happen close enough in time: a few attempts
+            d, tr = translate_to(wb, rp['options'], 'tsan')
+            try:
+                if tr.rc != 0 or read_outputs(d) != base:
+                    return True
+            finally:
+                cexec.rm(d)
+        return False
     if rp.get('kind') == 'c09-sched':
         wb = bytes.fromhex(rp['module_hex'])
         d0, tr0 = translate_to(wb, rp['options'], 'plain')
@@ -448,8 +523,10 @@ def replay(rp):
 
 def plan(tier, seed):
     if tier == 'quick':
-        return [{'ncases': 8, 'nvariants': 4} for _ in range(28)] + [{'sched': True, 'ncases': 6, 'schedules': 40} for _ in range(4)]
-    return [{'ncases': 30, 'nvariants': 8} for _ in range(56)] + [{'sched': True, 'ncases': 40, 'schedules': 120} for _ in range(8)]
+        return [{'ncases': 8, 'nvariants': 4} for _ in range(28)] + [{'sched': True, 'ncases': 6, 'schedules': 40} for _ in range(4)] + \
+            [{'tsan': True, 'ncases': 12} for _ in range(4)]
+    return [{'ncases': 30, 'nvariants': 8} for _ in range(56)] + [{'sched': True, 'ncases': 40, 'schedules': 120} for _ in range(8)] + \
+        [{'tsan': True, 'ncases': 150} for _ in range(8)]
 
 
 def run(tier, seed):
